@@ -78,7 +78,7 @@ def st_scenario(draw):
         if sends_per.get(src, 0) >= 4:
             continue
         sends_per[src] = sends_per.get(src, 0) + 1
-        plan.append({"src": src, "dst": dst, "sid": c["sid"], "msg": draw(st.sampled_from([f"m{k}", f"m{k}", f"m{k}", "", "dup"])), "structured": draw(st.integers(0, 3)) == 0,
+        plan.append({"src": src, "dst": dst, "sid": c["sid"], "msg": draw(st.sampled_from([f"m{k}", f"m{k}", f"m{k}", "", "dup", f"long{k}-" + "x" * 5000, f"L{k}" + "y" * 70000])), "structured": draw(st.integers(0, 3)) == 0,
                      "recv": draw(st.sampled_from(["block", "block", "nb-then-block"])), "via": draw(st.sampled_from(["logged", "logged", "silent"])),
                      "timeout": draw(st.sampled_from([None, None, 1e6, 0.05, 0.15, 0.25, 0.35]))})
     extra_nb = draw(st.lists(st.tuples(st.sampled_from(names), st.integers(0, 8)), max_size=2))
